@@ -311,8 +311,8 @@ int a_vec_store(a_vec *ctx, a_size idx, void *ptr, a_size num, int (*copy)(void 
 int a_vec_erase(a_vec *ctx, a_size idx, a_size num, void (*dtor)(void *))
 {
     int rc = A_SUCCESS;
-    a_size const n = idx + num;
-    if (dtor && ctx->num_)
+    a_size const n = (idx < ctx->num_ && num < ctx->num_ - idx) ? idx + num : ctx->num_;
+    if (dtor && idx < ctx->num_)
     {
         a_size i = (n <= ctx->num_ ? n : ctx->num_);
         a_byte *p = (a_byte *)ctx->ptr_ + ctx->siz_ * idx;
